@@ -67,6 +67,26 @@ def acceptor(chk, prog, cfg):
             if sp == "core::str::<impl str>::as_bytes" and len(args) == 1:
                 self.log.append(("as_bytes", args[0]))
                 return self.bytes
+            if sp == "core::str::<impl str>::bytes" and len(args) == 1:
+                # the same bytes, consumed through an iterator: the first `next()` yields the head, what is left is the tail
+                self.log.append(("as_bytes", args[0]))
+                self.consumed = 0
+                return S("byte-iter")
+            if last == "next" and args == [S("byte-iter")]:
+                self.consumed += 1
+                pre = (self.bytes or ("slice", [], None))[1]
+                if self.consumed <= len(pre):
+                    return absint.some(pre[self.consumed - 1])
+                if (self.bytes or ("slice", [], None))[2] is None:
+                    return absint.NONE
+                raise absint.Unrecognised("next() beyond the known head of the byte iterator")
+            if last == "all" and len(args) == 2 and args[0] == S("byte-iter"):
+                pre = (self.bytes or ("slice", [], None))[1]
+                if self.consumed != len(pre):
+                    raise absint.Unrecognised("all() over the byte iterator before the head was taken")
+                self.log.append(("all", (self.bytes or ("slice", [], None))[2] if (self.bytes or ("slice", [], None))[2] is not None else symrun.EMPTY_VEC))
+                self.tail_pred = args[1]
+                return S("TAIL")
             if last == "split_first" and len(args) == 1 and isinstance(args[0], tuple) and args[0][:1] == ("slice",):
                 sl = args[0]
                 if not sl[1]:
